@@ -115,6 +115,15 @@ pub mod other_types {
     #[nutype(sanitize(with = |t: T| t), validate(predicate = |t: &T| *t != T::default()), derive(Debug, FromStr))]
     pub struct G<T: Default + PartialEq>(T);
 
+    pub trait Flip { fn flip(self) -> Self; }
+    #[derive(Debug, Clone, Copy, PartialEq, Default)] pub struct Q2(pub i32);
+    impl Flip for Q2 { fn flip(self) -> Q2 { Q2(self.0 ^ unsafe { K }) } }
+    impl FromStr for Q2 { type Err = PErr; fn from_str(s: &str) -> Result<Q2, PErr> { P::from_str(s).map(|p| Q2(p.x)) } }
+    #[nutype(sanitize(with = |t: T| t.flip()), derive(Debug, FromStr))]
+    pub struct GS<T: Flip>(T);
+    #[nutype(sanitize(with = |t: T| t.flip()), validate(predicate = |t: &T| *t != T::default()), derive(Debug, FromStr))]
+    pub struct GV<T: Flip + Default + PartialEq>(T);
+
     fn text() -> &'static str {
         let cat: [&'static str; 6] = ["", "7", "7 ", " 7", "ab", "é"];
         let i: usize = kani::any(); kani::assume(i < 6); cat[i]
@@ -170,6 +179,27 @@ pub mod other_types {
                 match r { Ok(v) => { assert!(valid); assert!(v.into_inner() == Q(x.x)); } Err(GParseError::Validate(_)) => assert!(!valid), Err(GParseError::Parse(_)) => assert!(false) } }
         }
     }
+    #[kani::proof]
+    #[kani::unwind(8)]
+    #[kani::stub(crate::support::is_symbolic, crate::support::is_symbolic_true)]
+    pub fn c06_generic_sanitized() {
+        // generic newtypes with a NON-identity sanitizer (xor with a symbolic K: applying it twice or not at all is visible)
+        init(); let t = text();
+        let r = <GS<Q2> as FromStr>::from_str(t);
+        kani::cover!(r.is_ok()); kani::cover!(r.is_err());
+        match oracle(t) {
+            Err(pe) => { match r { Err(GSParseError::Parse(e)) => assert!(e == pe), _ => assert!(false, "inner parser rejects but from_str did not return Parse") } }
+            Ok(x) => { match r { Ok(v) => assert!(v.into_inner() == Q2(x.x).flip(), "generic from_str stored something other than the sanitized parsed value"), Err(_) => assert!(false) } }
+        }
+        unsafe { P_CALLS = 0; }
+        let r = <GV<Q2> as FromStr>::from_str(t);
+        match oracle(t) {
+            Err(pe) => { match r { Err(GVParseError::Parse(e)) => assert!(e == pe), _ => assert!(false, "inner parser rejects but from_str did not return Parse") } }
+            Ok(x) => { let s = Q2(x.x).flip(); let valid = s != Q2::default();
+                match r { Ok(v) => { assert!(valid, "generic from_str accepted what try_new rejects"); assert!(v.into_inner() == s, "generic from_str stored something other than the sanitized parsed value"); }
+                          Err(GVParseError::Validate(_)) => assert!(!valid, "generic from_str rejected what try_new accepts"), Err(GVParseError::Parse(_)) => assert!(false) } }
+        }
+    }
 }
 '''
 
@@ -209,7 +239,8 @@ def generate(tier, seed):
             src.append("pub mod %s {\n    use super::*;\n    use nutype::nutype;\n    %s\n    %s\n    %s\n%s\n%s}\n" % (m, USE, d.prelude(), float_prelude(ty), indent(d.attr()), hsrc))
     src.append(OTHER)
     for hn, what in [("c06_other_validated", "struct P, sanitizer+predicate, nondeterministic inner FromStr"), ("c06_other_plain", "struct P, sanitizer only"),
-                     ("c06_generic_validated", "generic G<T> at a harness type")]:
+                     ("c06_generic_validated", "generic G<T> at a harness type"),
+                     ("c06_generic_sanitized", "generic GS<T> / GV<T> with a non-identity sanitizer (xor with symbolic K), with and without validation")]:
         plan.add(H(hn, "main", {"case": what}))
     plan.source = "\n".join(src)
     plan.kani_flags = ["-Z", "stubbing"]
